@@ -277,20 +277,94 @@ class Eval(object):
 
     # ---- main loop -------------------------------------------------------
     def run(self):
-        blocks = dict((b['id'], b) for b in self.fn['blocks'])
-        cur = self.fn['blocks'][0]
-        prev = None
-        visited = set()
+        """Straight-line evaluation, extended by IF-CONVERSION of loop-free control flow: at a branch on a non-constant
+        condition c both arms are evaluated up to the branch's immediate post-dominator J and the phis of J become
+        sel(c, value from the taken arm, value from the other arm).  Arms must not write memory.  Branches whose one
+        arm is an assertion failure are pruned (assumed preconditions), branches on folded constants are followed."""
+        self._blocks = dict((b['id'], b) for b in self.fn['blocks'])
+        self._ipdom = None
+        self._visited = set()
+        self._phi_override = {}
+        last = self._exec(self.fn['blocks'][0]['id'], None, None)
+        if last is not None or not getattr(self, '_returned', False):
+            raise NotStraightLine('function does not end in a single return')
+        T.CUR_SRC[0] = None
+        return self
+
+    def _post_dominators(self):
+        from . import cfg as CFG
+        succ = CFG.successors(self.fn)
+        blocks = [b['id'] for b in self.fn['blocks']]
+        EXIT = -1
+        rs = {}
+        for b in blocks:
+            if not succ[b]:
+                rs.setdefault(EXIT, []).append(b)
+            for s_ in succ[b]:
+                rs.setdefault(s_, []).append(b)
+        order, seen, stack = [], set([EXIT]), [(EXIT, iter(rs.get(EXIT, [])))]
+        while stack:
+            node, it = stack[-1]
+            adv = False
+            for v in it:
+                if v not in seen:
+                    seen.add(v)
+                    stack.append((v, iter(rs.get(v, []))))
+                    adv = True
+                    break
+            if not adv:
+                order.append(node)
+                stack.pop()
+        rpo = order[::-1]
+        idx = dict((b, i) for i, b in enumerate(rpo))
+        rp = {}
+        for u in rpo:
+            for v in rs.get(u, []):
+                if v in idx:
+                    rp.setdefault(v, []).append(u)
+        ip = {EXIT: EXIT}
+        ch = True
+        while ch:
+            ch = False
+            for b in rpo[1:]:
+                ps = [p for p in rp.get(b, []) if p in ip]
+                if not ps:
+                    continue
+                new = ps[0]
+                for p in ps[1:]:
+                    a, c = p, new
+                    while a != c:
+                        while idx[a] > idx[c]:
+                            a = ip[a]
+                        while idx[c] > idx[a]:
+                            c = ip[c]
+                    new = a
+                if ip.get(b) != new:
+                    ip[b] = new
+                    ch = True
+        return ip
+
+    def _exec(self, bid, prev, stop):
+        """executes from block bid (entered from prev) until `stop` is reached (returns the id of the block that
+        jumped to stop) or the function returns (returns None)"""
+        blocks = self._blocks
+        cur = blocks[bid]
         while True:
-            if cur['id'] in visited:
-                raise NotStraightLine('loop at block %s' % cur['name'])
-            visited.add(cur['id'])
+            if cur['id'] == stop:
+                return prev
+            if cur['id'] in self._visited:
+                raise NotStraightLine('block %s reached twice (loop or shared arm)' % cur['name'])
+            self._visited.add(cur['id'])
             nxt = None
             if self.is_assert_block(cur):
                 raise AssertsFalse('unconditional assertion failure (instantiation not supported by the library)')
             for inst in cur['insts']:
                 op = inst['op']
                 if op == 'phi':
+                    ov = self._phi_override.get((cur['id'], inst['id']))
+                    if ov is not None:
+                        self.env[inst['id']] = ov
+                        continue
                     for inc in inst['incoming']:
                         if inc['bb'] == prev:
                             self.env[inst['id']] = self.val(inc['v'])
@@ -317,12 +391,18 @@ class Eval(object):
                                 self.assumed.append(('is', c, inst))
                                 nxt = tdest
                             else:
-                                raise NotStraightLine('branch on non-constant condition %s' % T.fmt(c, 3))
+                                J = self._if_convert(cur, c, tdest, fdest, inst)
+                                if J == stop:
+                                    # this region rejoins exactly where the enclosing region does: its merged phi values
+                                    # (kept in _phi_override) are what this arm delivers to the enclosing join
+                                    return ('merged', J)
+                                # the phis of the join block were resolved by _if_convert: continue there
+                                return self._exec(J, self._join_pred, stop)
                     break
                 if op == 'ret':
                     self.ret = self.val(inst['ops'][0]) if inst['ops'] else None
-                    T.CUR_SRC[0] = None
-                    return self
+                    self._returned = True
+                    return None
                 if op == 'unreachable':
                     raise NotStraightLine('reached unreachable')
                 if op == 'switch':
@@ -332,6 +412,43 @@ class Eval(object):
                 raise NotStraightLine('block without terminator handled')
             prev = cur['id']
             cur = blocks[nxt]
+
+    def _if_convert(self, cur, c, tdest, fdest, inst):
+        if self._ipdom is None:
+            self._ipdom = self._post_dominators()
+        J = self._ipdom.get(cur['id'])
+        if J is None or J == -1:
+            raise NotStraightLine('branch on non-constant condition %s (arms do not rejoin)' % T.fmt(c, 3))
+        mem_before = dict((k, dict(v)) for k, v in self.mem.items())
+        nw = (len(self.writes), len(self.var_access))
+        lastT = cur['id'] if tdest == J else self._exec(tdest, cur['id'], J)
+        savedT = dict((k, v) for k, v in self._phi_override.items() if k[0] == J) if isinstance(lastT, tuple) else None
+        lastF = cur['id'] if fdest == J else self._exec(fdest, cur['id'], J)
+        savedF = dict((k, v) for k, v in self._phi_override.items() if k[0] == J) if isinstance(lastF, tuple) else None
+        if lastT is None or lastF is None:
+            raise NotStraightLine('an arm of the branch on %s returns' % T.fmt(c, 3))
+        if self.mem != mem_before or (len(self.writes), len(self.var_access)) != nw:
+            raise NotStraightLine('memory written under a non-constant condition')
+        jb = self._blocks[J]
+        for ph in jb['insts']:
+            if ph['op'] != 'phi':
+                break
+            vt = vf = None
+            if isinstance(lastT, tuple):
+                vt = savedT.get((J, ph['id']))
+            if isinstance(lastF, tuple):
+                vf = savedF.get((J, ph['id']))
+            for inc in ph['incoming']:
+                if inc['bb'] == lastT and not isinstance(lastT, tuple):
+                    vt = self.val(inc['v'])
+                if inc['bb'] == lastF and not isinstance(lastF, tuple):
+                    vf = self.val(inc['v'])
+            if vt is None or vf is None or isinstance(vt, (Ptr, dict)) or isinstance(vf, (Ptr, dict)):
+                raise NotStraightLine('phi of the join block cannot be if-converted')
+            self._phi_override[(J, ph['id'])] = vt if vt == vf else T.sel(c, vt, vf)
+        self._join_pred = lastT if not isinstance(lastT, tuple) else (lastF if not isinstance(lastF, tuple) else cur['id'])
+        self.assumed_ifconv = getattr(self, 'assumed_ifconv', 0) + 1
+        return J
 
     def is_assert_block(self, b):
         for i in b['insts']:
